@@ -17,6 +17,22 @@ def sh(cmd, cwd=None, timeout=1800):
     out = "\n".join(l for l in p.stdout.splitlines() if "conda.cli" not in l)
     return p.returncode, out
 
+def save_outputs():
+    """evidence/ and replays/ describe the UNCHANGED tree; runs against a seeded change must not leave theirs behind"""
+    import tempfile
+    d = tempfile.mkdtemp(prefix="verif_saved_")
+    for sub in ("evidence", "replays"):
+        if os.path.isdir(os.path.join("/verif", sub)):
+            shutil.copytree(os.path.join("/verif", sub), os.path.join(d, sub))
+    return d
+
+def restore_outputs(d):
+    for sub in ("evidence", "replays"):
+        if os.path.isdir(os.path.join(d, sub)):
+            shutil.rmtree(os.path.join("/verif", sub), ignore_errors=True)
+            shutil.copytree(os.path.join(d, sub), os.path.join("/verif", sub))
+    shutil.rmtree(d, ignore_errors=True)
+
 def main():
     src, sid, prop = sys.argv[1], sys.argv[2], sys.argv[3]
     props = sys.argv[3:]
@@ -61,6 +77,7 @@ def main():
         return finish(res, src, sid)
     rc, out = sh(["git", "-C", "/repo", "apply", patch])
     detections = {}
+    saved = save_outputs()
     try:
         for p in props:
             t0 = time.time()
@@ -72,6 +89,7 @@ def main():
     finally:
         sh(["git", "-C", "/repo", "checkout", "--", "."])
         sh(["git", "-C", "/repo", "clean", "-fd"])
+        restore_outputs(saved)
     res["detections"] = detections
     res["detected_by"] = [p for p, d in detections.items() if d["violation"]]
     finish(res, src, sid)
